@@ -2,7 +2,7 @@
    Maven domain predicate.  The parsed version is printed in the shape of semver.VerifDump
    (kind sv_parse of harness/go/cmd/implrun/semver.go). *)
 From DepsDev Require Import Lib.Base Lib.Sx Semver.Version Semver.Maven Semver.Gem Semver.Compare
-  Semver.MavenParse Semver.GemParse Semver.MavenDomain Semver.GemDomain Semver.GemSegments Spec.MavenSpec Spec.GemSpec.
+  Semver.MavenParse Semver.GemParse Semver.MavenDomain Semver.MavenItems Semver.GemDomain Semver.GemSegments Spec.MavenSpec Spec.GemSpec.
 Local Open Scope Z_scope.
 
 Definition sx_ext (e : extension) : sx :=
@@ -93,6 +93,20 @@ Fixpoint segs_eqb (a b : list seg) : bool :=
   | x :: a', y :: b' => seg_eqb x y && segs_eqb a' b'
   | _, _ => false
   end.
+Definition k_maven_tie : bytes := [115;118;109;95;109;97;118;101;110;95;116;105;101]%N.                       (* svm_maven_tie *)
+Fixpoint item_eqb (a b : item) : bool :=
+  match a, b with
+  | IInt x, IInt y => N.eqb x y
+  | IStr x, IStr y => bytes_eqb x y
+  | IList la, IList lb =>
+      (fix go (la lb : list item) {struct la} : bool :=
+         match la, lb with
+         | [], [] => true
+         | x :: la', y :: lb' => item_eqb x y && go la' lb'
+         | _, _ => false
+         end) la lb
+  | _, _ => false
+  end.
 Definition k_dmvn_wide : bytes := [115;118;109;95;100;109;118;110;95;119;105;100;101]%N.                 (* svm_dmvn_wide *)
 Definition k_dmvn : bytes := [115;118;109;95;100;109;118;110]%N.                                  (* svm_dmvn *)
 
@@ -129,6 +143,20 @@ Definition run_MvnGem (kind : bytes) (a : sx) : option sx :=
               | Ok v, true => SL [SI 1; sx_bool (c02_wf_b v);
                                   sx_bool (segs_eqb (g_canonical (gem_segments v)) (gspec_canonical s))]
               | _, _ => SL [SI 0]
+              end
+          | _ => badcase end)
+  else if bytes_eqb kind k_maven_tie then
+    (* (str) -> (hypothesis c02_wide_b of C02_maven_partial on the element list parsed with the repaired
+       zero test, that list stands for exactly the normalised ComparableVersion item tree of the string) *)
+    Some (match a with
+          | SL [SB s] =>
+              match mvn_parse_with true s with
+              | Some (Ok v) =>
+                  match v_ext v with
+                  | MavenExt l => SL [sx_bool (c02_wide_b l); sx_bool (item_eqb (items_of l) (comparable_version s)); sx_bool (lone_zero l)]
+                  | _ => SL [SB sym_err]
+                  end
+              | _ => SL [SB sym_err]
               end
           | _ => badcase end)
   else if bytes_eqb kind k_spec_gem_norm then
